@@ -138,6 +138,11 @@ fn c08_case(p: &conc::RaceProgram, reps: u32) -> CaseReport {
         *counters.entry("stale_extent_results".into()).or_insert(0) += out.stale_seen;
         *counters.entry("parks_taken".into()).or_insert(0) += out.parked;
         *counters.entry("sched_events".into()).or_insert(0) += out.sched_events;
+        if p.expiry {
+            *counters.entry("expiry_programs".into()).or_insert(0) += 1;
+            let jumps = p.writers[0].iter().filter(|o| matches!(o, conc::WOp::Expire { .. })).count() as u64;
+            *counters.entry("expiry_jumps_generated".into()).or_insert(0) += jumps;
+        }
         if out.disk_reads > 0 && out.overlapping_reads > 0 {
             nontrivial = Some(env::fnv(format!("{:?}{:?}", out.states, out.observations.len()).as_bytes()) ^ rep as u64);
             if sample.is_none() {
@@ -213,6 +218,25 @@ fn c07m_case(p: &conc::ClockProgram) -> CaseReport {
     *counters.entry(format!("mode.{}", if p.persistent { "persistent" } else { "memory" })).or_insert(0) += 1;
     let nontrivial = (out.explicit_accepted > 0 && out.helper_writes > 0).then(|| env::fnv(format!("{p:?}").as_bytes()));
     let sample = nontrivial.map(|_| json!({"program": serde_json::to_value(p).unwrap(), "rounds": out.rounds, "helper_writes": out.helper_writes}));
+    let failure = out.failure.map(|(sig, msg)| (sig, msg, json!({"program": serde_json::to_value(p).unwrap()})));
+    CaseReport { failure, nontrivial, counters, sample, evaluations: 1 }
+}
+
+fn c08s_case(p: &conc::PinnedProgram) -> CaseReport {
+    let out = conc::run_pinned_program(p);
+    let mut counters = BTreeMap::new();
+    if out.reader_was_parked {
+        *counters.entry("reader_parked_on_the_extent".into()).or_insert(0) += 1;
+    }
+    if out.removed_while_parked {
+        *counters.entry("generation_removed_while_the_reader_was_parked".into()).or_insert(0) += 1;
+        *counters.entry(format!("removed_while_parked.{}", ["overwrite", "delete", "update_ttl_then_overwrite", "expiry_delete", "expiry_lazy", "expiry_sweeper", "expiry_recreate"][(p.remover as usize).min(6)])).or_insert(0) += 1;
+    }
+    if !out.reader_result.is_empty() {
+        *counters.entry(format!("reader_result.{}", out.reader_result)).or_insert(0) += 1;
+    }
+    let nontrivial = out.removed_while_parked.then(|| env::fnv(format!("{p:?}").as_bytes()));
+    let sample = nontrivial.map(|_| json!({"program": serde_json::to_value(p).unwrap(), "reader_result": out.reader_result}));
     let failure = out.failure.map(|(sig, msg)| (sig, msg, json!({"program": serde_json::to_value(p).unwrap()})));
     CaseReport { failure, nontrivial, counters, sample, evaluations: 1 }
 }
@@ -420,6 +444,26 @@ pub fn worker(id: &str, seed: u64, lane: u64, count: u32, outdir: &str, tier: Ti
                     TestError::Abort(r) => TestError::Abort(r),
                 })
         }
+        "C08S" => {
+            let strat = conc::pinned_strategy();
+            runner
+                .run(&strat, |p| {
+                    let counting = !failed.load(std::sync::atomic::Ordering::Relaxed);
+                    let r = c08s_case(&p);
+                    absorb(&agg, &r, counting);
+                    match r.failure {
+                        Some((sig, msg, _)) => {
+                            failed.store(true, std::sync::atomic::Ordering::Relaxed);
+                            Err(TestCaseError::fail(format!("[{sig}] {msg}")))
+                        }
+                        None => Ok(()),
+                    }
+                })
+                .map_err(|e| match e {
+                    TestError::Fail(r, v) => TestError::Fail(r, serde_json::to_value(&v).unwrap()),
+                    TestError::Abort(r) => TestError::Abort(r),
+                })
+        }
         "C16S" => {
             let strat = conc::stale_entry_strategy();
             runner
@@ -528,7 +572,7 @@ fn meta(id: &str, tier: Tier) -> Meta {
         },
         "C08" => Meta {
             cases: tier.pick(2400, 30_000),
-            rule: "proptest-generated racing programs on a persistent store with a 24-64 block device (freed blocks are reused at once), cache on/off, both I/O paths: one writer thread per key (1-4 keys; stamped values of 14 B .. 3 blocks that identify key and generation every 32 bytes, or 8-byte counters) issuing put / delete / re-create with another length / update_ttl / persist / increment / compare-and-swap on its own key, 1-3 reader threads looping over get / get_bytes / range_query / compare-and-swap probes on all keys, and a thread calling flush() in a loop; schedules: free, jitter, or bounded parks at the named points (after the extent is located, after the device read, before retirement, before release, before publish ...). The writer publishes started/completed state numbers around each call; a reader samples lo=completed before and hi=started after its call. A returned value must be one complete generation of that key whose state number lies in [lo, hi]; not-found only if an absent state lies in the window (or, for a scan, the key was being rewritten); StaleExtent only if hi > lo; any other error, a foreign key's bytes, marker bytes, padding or a mixture fails; increments and swaps by the sole modifier must return exactly the model's result; no device write may hit the blocks of an extent while a reader is parked between locating and reading it. Non-trivial: an execution with at least one read from the device and at least one read that overlapped a modification of its key. Evaluations = program executions.",
+            rule: "proptest-generated racing programs on a persistent store with a 24-64 block device (freed blocks are reused at once), cache on/off, both I/O paths: one writer thread per key (1-4 keys; stamped values of 14 B .. 3 blocks that identify key and generation every 32 bytes, or 8-byte counters) issuing put / delete / re-create with another length / update_ttl / persist / increment / compare-and-swap on its own key (in three programs of ten key 0 runs on a virtual clock that only its writer moves: generations with a one-second TTL, clock jumps of two seconds that expire them under the readers, optionally followed by a delete of the expired key, so extents are retired because of expiry while readers are parked on them), 1-3 reader threads looping over get / get_bytes / range_query / compare-and-swap probes on all keys, and a thread calling flush() in a loop; schedules: free, jitter, or bounded parks at the named points (after the extent is located, after the device read, before retirement, before release, before publish ...). The writer publishes started/completed state numbers around each call; a reader samples lo=completed before and hi=started after its call. A returned value must be one complete generation of that key whose state number lies in [lo, hi]; not-found only if an absent state lies in the window (or, for a scan, the key was being rewritten); StaleExtent only if hi > lo; any other error, a foreign key's bytes, marker bytes, padding or a mixture fails; increments and swaps by the sole modifier must return exactly the model's result; no device write may hit the blocks of an extent while a reader is parked between locating and reading it. Non-trivial: an execution with at least one read from the device and at least one read that overlapped a modification of its key. Evaluations = program executions.",
             assumptions: vec!["schedules are sampled and steered, not enumerated".into(), "the no-overwrite check covers readers parked at the after_sector_load point (the controller knows sector and length there)".into()],
         },
         "C16D" => Meta {
@@ -550,6 +594,11 @@ fn meta(id: &str, tier: Tier) -> Meta {
             cases: tier.pick(640, 8000),
             rule: "proptest-generated mixed-clock programs (memory-only and persistent): 60-400 rounds on fresh keys; in every round the main thread publishes insert_with_timestamp(key, Some(F)) with F 1 s / 1 h / 10 days ahead of the wall clock while 1-3 helper threads, released by the same barrier with a generated skew, draw automatic timestamps - on the round's own key and on pools of 1-300 other keys that collide into the same one of the 64 clock shards. After every round all helpers are parked; the main thread then issues an automatic insert / delete / compare-and-swap on the key. In real-time order that call is the newest write: it must be accepted, and the stored timestamp must exceed F. Non-trivial: a program in which explicit future timestamps were accepted while helpers wrote.",
             assumptions: vec!["the race between the explicit publication and the helpers' timestamp draws is sampled (barrier + generated spin skew), not enumerated".into()],
+        },
+        "C08S" => Meta {
+            cases: tier.pick(640, 8000),
+            rule: "proptest-generated steered scenarios on a persistent store with a 24-block device, TTL on: key K (80 B - 3 blocks; no TTL, long TTL or a one-second TTL) is flushed and offloaded; a reader thread (get, get_bytes, range_query or a non-matching compare_and_swap) is parked 30-90 ms between locating K's extent and reading it while the main thread makes the generation go away: overwrite, delete, update_ttl followed by an overwrite, or - on a process-wide virtual clock that jumps past the expiry - a delete of the expired key, lazy removal through another read, a sweeper pass, or re-creation through insert_if_absent; then flush() runs next to 1-4 inserts of other keys of the same size that want the freed blocks. No device write may hit the pinned blocks before the reader leaves (I/O hook), the reader returns the old generation, the new one, not-found or StaleExtent, K then reads as its final state and the other keys are intact. Non-trivial: the removal completed while the reader was still parked.",
+            assumptions: vec!["the window is forced by parking the reader at the after_sector_load scheduling point; the retirement itself runs freely".into()],
         },
         "C16S" => Meta {
             cases: tier.pick(480, 6000),
@@ -759,6 +808,7 @@ pub fn replay_sub(id: &str, path: &str) -> i32 {
             "C14D" => serde_json::from_value::<conc::ScanProgram>(doc["replay"]["program"].clone()).ok().and_then(|p| c14d_case(&p, 1).failure),
             "C13D" => serde_json::from_value::<conc::MemProgram>(doc["replay"]["program"].clone()).ok().and_then(|p| c13d_case(&p).failure),
             "C11D" => serde_json::from_value::<conc::SweepProgram>(doc["replay"]["program"].clone()).ok().and_then(|p| c11d_case(&p).failure),
+            "C08S" => serde_json::from_value::<conc::PinnedProgram>(doc["replay"]["program"].clone()).ok().and_then(|p| c08s_case(&p).failure),
             "C16S" => serde_json::from_value::<conc::StaleEntryProgram>(doc["replay"]["program"].clone()).ok().and_then(|p| c16s_case(&p).failure),
             "C07M" => serde_json::from_value::<conc::ClockProgram>(doc["replay"]["program"].clone()).ok().and_then(|p| c07m_case(&p).failure),
             "C08" | "C16D" => serde_json::from_value::<conc::RaceProgram>(doc["replay"]["program"].clone()).ok().and_then(|p| c08_case(&p, 1).failure),
